@@ -133,6 +133,11 @@ func (de *dEval) report(f *Fault, sig, format string, a ...any) {
 }
 
 func describeFault(f *Fault) string {
+	if f.Also != nil {
+		g := *f
+		g.Also = nil
+		return describeFault(&g) + " and " + describeFault(f.Also)
+	}
 	switch f.Kind {
 	case "trunc":
 		return fmt.Sprintf("truncate %s to %d bytes", f.File, f.Pos)
@@ -156,6 +161,14 @@ func describeFault(f *Fault) string {
 
 // applyFault damages the named file inside dir. File is a file name of the directory.
 func applyFault(dir string, f *Fault) error {
+	if f.Also != nil {
+		g := *f
+		g.Also = nil
+		if err := applyFault(dir, &g); err != nil {
+			return err
+		}
+		return applyFault(dir, f.Also)
+	}
 	if f.Kind == "none" {
 		return nil
 	}
@@ -271,6 +284,33 @@ func (de *dEval) runC07() {
 		}
 		faults = append(faults, &Fault{Kind: "extra", File: idxName, Len: int64(n), Data: extra})
 	}
+	// both files torn (what a power loss during an append leaves): the log cut inside or at the
+	// end of record k+1, the index cut to k-1, k or k+1 items plus a fragment of the next
+	var both []*Fault
+	hdr := len(idxData) - len(recs)*isz
+	if hdr >= 0 && len(recs) > 0 {
+		nb := 12
+		if thorough {
+			nb = 60
+		}
+		for i := 0; i < nb; i++ {
+			k := de.rng.Intn(len(recs)) // records that stay valid
+			rc := recs[k]
+			cut := rc.Pos + int64(de.rng.Intn(int(rc.Size))) // 0 = exactly at the record boundary
+			if cut < 8 && ver == refcodec.V2 {
+				continue
+			}
+			items := k + de.rng.Pick(20, 60, 20) - 1
+			if items < 0 {
+				items = 0
+			}
+			if items > len(recs)-1 {
+				items = len(recs) - 1
+			}
+			icut := int64(hdr + items*isz + de.rng.Range(1, isz-1))
+			both = append(both, &Fault{Kind: "trunc", File: logName, Pos: cut, Also: &Fault{Kind: "trunc", File: idxName, Pos: icut}})
+		}
+	}
 	if !thorough {
 		// seeded sample of about 300; the boundary cases are always kept
 		must := func(f *Fault) bool {
@@ -300,6 +340,7 @@ func (de *dEval) runC07() {
 		}
 		faults = keep
 	}
+	faults = append(faults, both...)
 	for _, f := range faults {
 		de.evalC07(f)
 	}
@@ -325,6 +366,9 @@ func faultSeed(seed uint64, f *Fault) uint64 {
 	for _, c := range f.Data {
 		h = Mix(h, uint64(c))
 	}
+	if f.Also != nil {
+		h = Mix(h, faultSeed(seed, f.Also))
+	}
 	return h
 }
 
@@ -333,7 +377,11 @@ func (de *dEval) evalC07(f *Fault) {
 	cfg := &de.plan.Cfg
 	frng := NewRng(faultSeed(de.plan.Seed, f))
 	de.res.Evals++
-	de.res.Faults[f.Kind+"_"+fileKind(f.File)]++
+	if f.Also != nil {
+		de.res.Faults[f.Kind+"_log_and_"+f.Also.Kind+"_index"]++
+	} else {
+		de.res.Faults[f.Kind+"_"+fileKind(f.File)]++
+	}
 	logName, idxName := fmt.Sprintf("%020d.log", 0), fmt.Sprintf("%020d.index", 0)
 	kopts := klevdb.Options{KeyIndex: cfg.Keys, TimeIndex: cfg.Times}
 
@@ -359,6 +407,9 @@ func (de *dEval) evalC07(f *Fault) {
 	}
 	cleanSeg := clean && idxOK
 	tag := f.Kind + "|" + fileKind(f.File) + "|" + verName(ver)
+	if f.Also != nil {
+		tag = f.Kind + "+" + f.Also.Kind + "|log+index|" + verName(ver)
+	}
 	de.classes[fmt.Sprintf("%s|clean=%v|prefix=%d/%d|idx=%v", tag, clean, len(recs), len(de.r.M.Live), hasIdx)] = true
 
 	sim.BeginInline(frng.U64(), de.plan.Cfg.StartUS+1000000)
@@ -399,14 +450,24 @@ func (de *dEval) evalC07(f *Fault) {
 		return
 	}
 	// 3. Recover, package-level and through Open
-	for _, via := range []string{"Recover", "Open(Recover)"} {
+	vias := []string{"Recover", "Open(Recover)"}
+	if frng.Chance(30) {
+		// Recover combined with an eager migration to the other format version: the valid
+		// prefix must survive the combination as well
+		vias = append(vias, "Open(Recover+Eager)")
+	}
+	for _, via := range vias {
 		d := mk()
 		var rerr error
-		if via == "Recover" {
+		switch via {
+		case "Recover":
 			rerr = guard(func() error { return klevdb.Recover(d, kopts) })
-		} else {
+		default:
 			ro := de.r.OOpts
 			ro.Check, ro.Recover, ro.Eager, ro.Readonly = false, true, false, false
+			if via == "Open(Recover+Eager)" {
+				ro.Eager, ro.Keep, ro.NewV = true, false, 3-ver
+			}
 			rerr = guard(func() error {
 				l, e := klevdb.Open(d, ro.K(cfg))
 				if e == nil {
@@ -421,20 +482,43 @@ func (de *dEval) evalC07(f *Fault) {
 			return
 		}
 		after := snapDir(d)
-		if via == "Open(Recover)" && len(recs) == 0 && bytes.Equal(after[logName], refcodec.LogHeader(refcodec.V2)) {
-			// Open goes on to prepare the (empty) segment for writing: a header-only file is the empty log
-			after[logName] = P
-		}
-		if !bytes.Equal(after[logName], P) {
-			kind := "kept-too-much"
-			if len(after[logName]) < len(P) {
-				kind = "kept-too-little"
-			} else if len(after[logName]) == len(P) {
-				kind = "altered"
+		derived := derived
+		if via == "Open(Recover+Eager)" {
+			// the records of the valid prefix, re-encoded: compared record by record
+			v2, recs2, _, clean2, err2 := refcodec.DecodeLog(after[logName], 0)
+			same := err2 == nil && clean2 && len(recs2) == len(recs)
+			for i := 0; same && i < len(recs); i++ {
+				a, b := recs2[i], recs[i]
+				same = a.Off == b.Off && a.US == b.US && bytes.Equal(a.Key, b.Key) && bytes.Equal(a.Val, b.Val)
 			}
-			de.report(f, via+"|"+tag+"|log-not-longest-valid-prefix|"+kind, "after %s the log file has %d bytes, the longest prefix of valid records has %d (%d records)", via, len(after[logName]), len(P), len(recs))
-			os.RemoveAll(d)
-			return
+			if !same {
+				de.report(f, via+"|"+tag+"|log-not-longest-valid-prefix|after-migration", "after %s the log file holds %d records (decodes cleanly: %v, %v), the longest prefix of valid records has %d", via, len(recs2), clean2, err2, len(recs))
+				os.RemoveAll(d)
+				return
+			}
+			if len(recs) > 0 && v2 != 3-ver {
+				de.report(f, via+"|"+tag+"|not-migrated", "after %s the log file is still in format V%d", via, v2)
+				os.RemoveAll(d)
+				return
+			}
+			derived = refcodec.DeriveIndex(recs2, cfg.Times, cfg.Keys)
+			de.res.Probes["recover_with_eager_migration"]++
+		} else {
+			if via == "Open(Recover)" && len(recs) == 0 && bytes.Equal(after[logName], refcodec.LogHeader(refcodec.V2)) {
+				// Open goes on to prepare the (empty) segment for writing: a header-only file is the empty log
+				after[logName] = P
+			}
+			if !bytes.Equal(after[logName], P) {
+				kind := "kept-too-much"
+				if len(after[logName]) < len(P) {
+					kind = "kept-too-little"
+				} else if len(after[logName]) == len(P) {
+					kind = "altered"
+				}
+				de.report(f, via+"|"+tag+"|log-not-longest-valid-prefix|"+kind, "after %s the log file has %d bytes, the longest prefix of valid records has %d (%d records)", via, len(after[logName]), len(P), len(recs))
+				os.RemoveAll(d)
+				return
+			}
 		}
 		if ib, ok := after[idxName]; ok {
 			_, items, ierr := refcodec.DecodeIndex(ib, 0, cfg.Times, cfg.Keys)
@@ -451,7 +535,7 @@ func (de *dEval) evalC07(f *Fault) {
 				return
 			}
 		}
-		if f.Kind == "none" {
+		if f.Kind == "none" && via != "Open(Recover+Eager)" {
 			if dd := de.pristine.diff(after); dd != "" {
 				de.report(f, via+"|undamaged|not-a-noop", "%s on an undamaged segment changed the directory: %s", via, dd)
 				os.RemoveAll(d)
